@@ -204,6 +204,8 @@ class FakeTransport(asyncio.Transport):
         self.reading_paused = False
         self.writing_paused = False
         self.held: List[bytes] = []
+        self.pause_at: Optional[int] = None  # the peer stops reading once this many writes have reached it
+        self._close_pending = False
         if server is not None:
             server._attach()
         loop.call_soon(protocol.connection_made, self)
@@ -230,6 +232,11 @@ class FakeTransport(asyncio.Transport):
             self._fatal(BrokenPipeError("injected write failure"))
             return
         d = native_bytes(data)
+        if self.pause_at is not None and len(self.writes) >= self.pause_at and not self.writing_paused:
+            # as a socket transport does from within write() once its buffer is over the high-water mark
+            self.pause_at = None
+            self.writing_paused = True
+            self.protocol.pause_writing()
         if self.writing_paused:
             # accepted into the transport's buffer, but the peer receives nothing until it reads again
             self.held.append(d)
@@ -272,6 +279,11 @@ class FakeTransport(asyncio.Transport):
             return
         self.closing = True
         self.torn_down_at = self.loop.time()
+        if self.writing_paused and self.held:
+            # like a socket transport: close() first flushes what is buffered, and that cannot happen while the
+            # peer is not reading - connection_lost comes when it reads again, resets, or abort() is called
+            self._close_pending = True
+            return
         self.loop.call_soon(self._call_connection_lost, None)
 
     def abort(self) -> None:
@@ -329,6 +341,9 @@ class FakeTransport(asyncio.Transport):
                 self.writes.append((self.loop.time(), len(d)))
                 self.out.add(d)
             self.loop.call_soon(self.protocol.resume_writing)
+            if self._close_pending:
+                self._close_pending = False
+                self.loop.call_soon(self._call_connection_lost, None)
 
 
 def _detach_takes_transport() -> bool:
